@@ -168,7 +168,7 @@ func operandExpr(t *rapid.T, sh *progShape, allowEqu []string, depth int) []rc.T
 func Program(t *rapid.T, cfg AsmConfig) rc.Program {
 	sh := &progShape{labelAt: map[string]int{}}
 	sh.n = rapid.IntRange(1, 15).Draw(t, "n")
-	if rapid.IntRange(0, 79).Draw(t, "large") == 0 {
+	if Rare(t, "large", 6) {
 		sh.n = rapid.IntRange(100, 320).Draw(t, "nlarge") // more than 64 labels, more than 256 lines
 	}
 	if int64(sh.n) > cfg.Length {
